@@ -9,6 +9,8 @@ from redun.job_array import AWS_ARRAY_VAR, K8S_ARRAY_VAR, GCP_ARRAY_VAR, get_job
 from redun.file import File
 
 root = tempfile.mkdtemp(prefix="c32_")
+import atexit as _atexit, shutil as _shutil
+_atexit.register(lambda: _shutil.rmtree(root, ignore_errors=True))     # nothing is left under /tmp
 cwd = os.getcwd()
 os.chdir(root)
 n = 0
